@@ -32,6 +32,12 @@ theorem literals_agree :
     Gen.C07Hsfz.defaultAckTimeoutMs = 1000 ∧ Gen.C07Hsfz.ackTimeoutDivisor = 1000 ∧ Gen.C07Hsfz.defaultPort = 6801 := by
   decide
 
+/-- the read queue of hsfz.py is unbounded.  The model relies on it twice: the reader task's `await put()` never
+    suspends (`settle` parses every complete frame whatever the queue holds - alive checks behind any backlog are
+    answered), and the `put_nowait` re-queue of the frames an ack wait skipped never raises (`clientRun` puts all of
+    them back).  What a capacity does: `bounded_queue_starves_alive_check`. -/
+theorem queues_unbounded : Gen.C07Hsfz.queueCaps = [("HSFZConnection.self._read_queue", 0)] := by decide
+
 /-- the comparisons made by the two consumers are the ones of `ackMatches` / `dataMatches` -/
 theorem compares_agree :
     Gen.C07Hsfz.ackCompares =
@@ -138,11 +144,14 @@ theorem ackMatches_iff (cfg : Cfg) (prev : Bytes) (x : Item) :
 
 /-- a read delivers the payload of the first queued data frame from the ECU to the tester, unmodified, provided no
     bare control word is queued in front of it; the frames it skipped (other pairs, stale acks) and the frames behind
-    it all stay queued -/
+    it all stay queued (the skipped ones are re-appended at the tail: behind the end-of-stream marker once the reader
+    task has ended) -/
 theorem readDiag_delivers (cfg : Cfg) (s : Sys) (sk : List Item) (c : Option Nat) (pre post : List Item) (d : Bytes)
     (hcl : s.client = .reading sk c) (hq : s.queue = pre ++ .frame cwData cfg.dst cfg.src d :: post)
     (hpre : Clean (dataMatches cfg) pre) :
-    clientRun cfg s = { s with queue := post ++ (sk ++ pre) }.finish (.data d) ∧
+    clientRun cfg s =
+      { s with queue := if s.eof then post else post ++ (sk ++ pre),
+               behind := if s.eof then s.behind ++ (sk ++ pre) else s.behind }.finish (.data d) ∧
     (post ++ (sk ++ pre)).Perm (sk ++ (pre ++ post)) := by
   constructor
   · have hs := scan_hit (dataMatches cfg) sk pre (.frame cwData cfg.dst cfg.src d) post hpre rfl
@@ -188,7 +197,7 @@ theorem reads_account_for_every_frame (cfg : Cfg) (yields : Wire → Bool) (ops 
       dataOf cfg (held (exec cfg yields {} ops).client ++
         ((exec cfg yields {} ops).queue ++ items (parseAll hsfzCutter (exec cfg yields {} ops).buf).1)) =
     dataOf cfg (items (parseAll hsfzCutter (fedBytes ops)).1) := by
-  obtain ⟨_, h⟩ := exec_arrived cfg yields ops {} (WF_idle cfg _ rfl)
+  obtain ⟨_, h⟩ := exec_arrived cfg yields ops {} (WF_idle cfg _ rfl rfl)
   have := h []
   simpa [arrived, held] using this
 
